@@ -15,6 +15,20 @@ def probOut (x : F64) : F64 := F64.min x one
 /-- a probability as the operators need it (`Bernoulli::new` succeeds): `0 <= p <= 1` -/
 def isProb (p : F64) : Bool := F64.le (.fin 0) p && F64.le p one
 
+/-- order codes of `f64::MIN_POSITIVE` (smallest positive normal number) and `f64::MAX` -/
+def minPositive : F64 := .fin 4503599627370496
+def maxFinite : F64 := .fin 9218868437227405311
+
+/-- Rust's `f64::clamp(min, max)`: NaN stays NaN, values below `min` become `min`, above `max` become `max` -/
+def clampF (x lo hi : F64) : F64 := if F64.lt x lo then lo else if F64.lt hi x then hi else x
+
+/-- `rescale_scale(s) = rescale(s).clamp(f64::MIN_POSITIVE, f64::MAX)` (fix of D11), `x` the observed product;
+    `clamped`: is the clamp present in the source (extracted) -/
+def scaleOut (clamped : Bool) (x : F64) : F64 := if clamped then clampF x minPositive maxFinite else x
+
+/-- a mutation scale as the report promises it: positive and finite -/
+def isScale (x : F64) : Bool := x.isFinite && F64.lt (.fin 0) x
+
 /-- float law FL-mul-sign: the product of a non-negative number and a positive finite factor is a number `>= 0`
     (`rescale` multiplies by `10^e` clamped into `[1e-12, 1e12]`) -/
 def MulSign (x : F64) : Prop := F64.le (.fin 0) x = true
